@@ -6,7 +6,7 @@ PROPERTY = 'C10'
 LEVEL = 'exploration'
 RULE = ('integers: exhaustive symmetric range (quick +-2^16, thorough +-2^20) + every raw value within '
         '+-2 of 32^k/2 for k<=80 and of +-2^k for k<=400 + Hypothesis unbounded integers, integer lists, mappings structures '
-        '(>=1 line, segments of 1/4/5 and other lengths) and canonical VLQ strings built from the grammar; '
+        '(>=1 line, segments of 1/4/5 and other lengths) and canonical VLQ strings built from the grammar; every line count and every list length from 1 to 4200 (thorough: 20000) with short lines, enumerated; '
         'oracles: decode(encode(x))==x at value/list/mappings level, encode(decode(s))==s for canonical s, '
         'and both directions against an independent reference codec (R4); a third of the cases run right after a call that failed part way (invalid element after valid ones, producer raising midway, malformed string). '
         'non-trivial = a case containing a value with |v|>=16 (multi-digit) or v<0; distinct by value/structure')
@@ -24,6 +24,10 @@ def plan(tier, seed):
         hi = min(lim, lo + step - 1)
         shards.append({'name': 'range%d' % i, 'kind': 'range', 'lo': lo, 'hi': hi})
     shards.append({'name': 'bounds', 'kind': 'bounds'})
+    # every line count / list length up to a bound (block-wise or chunked implementations fail at exact multiples)
+    top = 4200 if tier == 'quick' else 20000
+    for i in range(8):
+        shards.append({'name': 'scale%d' % i, 'kind': 'scale', 'start': 1 + i, 'step': 8, 'top': top})
     total = 6000 if tier == 'quick' else 240000
     nh = 6 if tier == 'quick' else 16
     for k in range(nh):
@@ -198,6 +202,19 @@ def run_shard(shard):
             check_int(acc, vlq, i, opens)
             acc.case(('b', i), True, {'int': str(i), 'encoded': vlq.encode_vlq(i)} if abs(i) > 2 ** 200 else None)
             acc.label('boundary_bits_%d' % (50 * (i.bit_length() // 50)))
+    elif kind == 'scale':
+        # structure sizes, enumerated: n lines (some empty, most with one or two short segments) and lists of n values
+        pats = [[], [(0,)], [(1, 0, 0, 0)], [(-3,), (2, 0, 1, -1, 0)], [(17, 0, -20, 33)]]
+        for n in range(shard['start'], shard['top'] + 1, shard['step']):
+            m = [pats[(j * 7 + n) % len(pats)] for j in range(n)]
+            if not m[-1] and n % 3:
+                m[-1] = [(n % 50 - 25,)]
+            check_mappings(acc, vlq, m, opens)
+            check_list(acc, vlq, [((j * 37 + n) % 101) - 50 for j in range(n)], opens)
+            acc.evaluations += 1
+            acc.nontrivial.add(('scale', n))
+            acc.label('scale_lines_%dk' % (n // 1000))
+        acc.extra['exhaustive_sizes'] = [[1, shard['top']]]
     elif kind == 'hyp':
         from hypothesis import strategies as st
         from harness.hyp import run_given
@@ -253,3 +270,6 @@ def finish(m, cov, tier):
     if rs:
         cov['exhaustive'] = True
         cov['exhaustive_part'] = 'every integer in [%d, %d]' % (rs[0][0], rs[-1][1])
+    sz = m['extra'].get('exhaustive_sizes', [])
+    if sz and rs:
+        cov['exhaustive_part'] += '; every mappings line count and list length in [1, %d]' % max(b for a, b in sz)
